@@ -22,7 +22,7 @@ operation sequence on a name table is ONE line:
 Names travel as atoms in which every byte other than [A-Za-z0-9_] is written %XX (so invalid UTF-8
 produced by byte slicing is representable); the empty name is `%`.
 Types: bool int i8 i16 i32 i64 uint u8 u16 u32 u64 uintptr f32 f64 c64 c128 string func iface
-       (p T) (sl T) (ar N T) (m K V) (ch T) (chr T) = <-chan T (chs T) = chan<- T (st T…) (nm PKG NAME T)   — PKG: 0 = the package itself.
+       (p T) (sl T) (ar N T) (m K V) (ch T) (chr T) = <-chan T (chs T) = chan<- T (st T…) (stt TAG T…) = struct whose first field bears the tag json:"TAG" (nm PKG NAME T)   — PKG: 0 = the package itself.
        error  (if M…) = interface{ M() … }  (nmm PKG NAME T M…) = named type with methods M() … (Error() string)
 -/
 import GoderiveModel.U.Wire
@@ -98,6 +98,7 @@ partial def parseGTy : SExp → Option GTy
   | .list [.atom "ar", .atom n, t] => do pure (.array (← n.toNat?) (← parseGTy t))
   | .list [.atom "m", k, v] => do pure (.map (← parseGTy k) (← parseGTy v))
   | .list (.atom "st" :: fs) => (parseGFields fs).map .struct
+  | .list (.atom "stt" :: .atom tag :: fs) => do pure (.structT (← unesc tag) (← parseGFields fs))
   | _ => none
 partial def parseGFields : List SExp → Option GTy
   | [] => some .fnil
@@ -125,6 +126,7 @@ partial def showGTy : GTy → String
   | .array n t => s!"(ar,{n},{showGTy t})"
   | .map k v => s!"(m,{showGTy k},{showGTy v})"
   | .struct fs => "(st" ++ showFields fs ++ ")"
+  | .structT tag fs => "(stt," ++ esc tag ++ showFields fs ++ ")"
   | .func => "func"
   | .iface => "iface"
   | .ifaceM ms => "(if" ++ "".intercalate (ms.map fun m => "," ++ esc m) ++ ")"
@@ -140,7 +142,7 @@ def showTyps (ts : List GTy) : String := "[" ++ ",".intercalate (ts.map showGTy)
 pair is bound to two different underlying types (the terms would not be canonical) -/
 partial def namedBindings : GTy → List ((Nat × Name) × GTy)
   | .named p n u => ((p, n), u) :: namedBindings u
-  | .ptr t | .slice t | .chan t | .chanR t | .chanS t | .array _ t | .struct t => namedBindings t
+  | .ptr t | .slice t | .chan t | .chanR t | .chanS t | .array _ t | .struct t | .structT _ t => namedBindings t
   | .map k v => namedBindings k ++ namedBindings v
   | .fcons t r => namedBindings t ++ namedBindings r
   | _ => []
